@@ -118,6 +118,67 @@ pub fn paren_walk_14<S: Src>(s: &mut S) { paren_walk::<S, 14>(s) }
 pub fn paren_walk_15<S: Src>(s: &mut S) { paren_walk::<S, 15>(s) }
 pub fn paren_walk_16<S: Src>(s: &mut S) { paren_walk::<S, 16>(s) }
 
+// ---------------------------------------------------------------- single-point damages, through every parser (native only)
+// The property's "in particular" sentence, executed on the public API: a well-formed expression damaged by deleting
+// or inserting one parenthesis, appending a binary operator, placing an extra operand directly beside an existing
+// operand, or inserting an illegal character never parses — for every parser entry point.  Enumerated by
+// `exmex_replay --exhaust` over 10 expressions x 5 damage kinds x every position x 5 parsers x {no blanks, blanks}.
+// Never run under Kani (the parsers are out of CBMC's reach); bounded stand-in, not a proof.
+#[cfg(not(kani))]
+pub fn single_damage<S: Src>(s: &mut S) {
+    use exmex::prelude::*;
+    const EXPRS: [&[&str]; 10] = [
+        &["x", "+", "(", "3", ")", "*", "2"],
+        &["2", "*", "(", "3", "+", "4", ")", "-", "sin", "(", "y", ")"],
+        &["1", "+", "2"],
+        &["(", "x", "+", "1", ")", "*", "(", "y", "-", "2", ")"],
+        &["-", "x", "^", "2"],
+        &["sin", "(", "cos", "(", "z", ")", ")", "/", "4.5"],
+        &["7"],
+        &["(", "(", "a", ")", ")"],
+        &["x", "*", "y", "+", "(", "z", "+", "1", ")", "*", "2"],
+        &["1", "-", "(", "2", "-", "(", "3", "-", "x", ")", ")"],
+    ];
+    let toks = EXPRS[s.choice(10) as usize];
+    let n = toks.len();
+    let is_operand = |t: &str| t.chars().next().map_or(false, |c| c.is_ascii_digit() || (c.is_ascii_lowercase() && t.len() == 1));
+    let mut v: Vec<&str> = toks.to_vec();
+    let kind = s.choice(6);
+    match kind {
+        0 => { // delete one parenthesis
+            let ps: Vec<usize> = (0..n).filter(|i| toks[*i] == "(" || toks[*i] == ")").collect();
+            s.assume(!ps.is_empty());
+            let i = ps[s.range_usize(0, ps.len() - 1)];
+            v.remove(i);
+        }
+        1 => { let i = s.range_usize(0, n); v.insert(i, "("); }      // insert an opening parenthesis anywhere
+        2 => { let i = s.range_usize(0, n); v.insert(i, ")"); }      // insert a closing parenthesis anywhere
+        3 => { v.push(["*", "/", "^", "+", "-"][s.choice(5) as usize]); }   // append a binary operator
+        4 => { // an extra operand directly beside an existing operand (left or right of it)
+            let os: Vec<usize> = (0..n).filter(|i| is_operand(toks[*i])).collect();
+            let i = os[s.range_usize(0, os.len() - 1)];
+            let extra = ["7", "w", "2.5"][s.choice(3) as usize];
+            if s.bool() { v.insert(i, extra); } else { v.insert(i + 1, extra); }
+        }
+        _ => { let i = s.range_usize(0, n); v.insert(i, ["#", "$", "ά", "§"][s.choice(4) as usize]); }   // an illegal character anywhere
+    }
+    let text = v.join(" ");
+    let rejected = match s.choice(5) {
+        0 => FlatEx::<f64>::parse(&text).is_err(),
+        1 => FlatEx::<f64>::parse_wo_compile(&text).is_err(),
+        2 => exmex::DeepEx::<f64>::parse(&text).is_err(),
+        3 => exmex::eval_str::<f64>(&text).is_err(),
+        _ => exmex::parse_val::<i32, f64>(&text).is_err(),
+    };
+    if !rejected && std::env::var("C07_DEBUG").is_ok() { eprintln!("accepted: {:?} (damage kind {})", text, kind); }
+    assert!(rejected, "C07 a well-formed expression damaged by deleting or inserting one parenthesis, appending a binary operator, placing an extra operand beside an operand, or inserting an illegal character never parses");
+}
+
+#[cfg(not(kani))]
+registry!("c07", single_damage, preconditions_len_4, preconditions_len_5, preconditions_len_6, preconditions_len_7, preconditions_len_9, preconditions_len_10,
+    paren_walk_9, paren_walk_10, paren_walk_11, paren_walk_12, paren_walk_13, paren_walk_14, paren_walk_15, paren_walk_16, preconditions_len_8, preconditions_len_3, preconditions_len_0, preconditions_len_1, preconditions_len_2,
+    l3_00, l3_01, l3_02, l3_03, l3_10, l3_11, l3_12, l3_13, l3_20, l3_21, l3_22, l3_23, l3_24, l3_25, l3_26, l3_30, l3_31, l3_32, l3_33, l3_40, l3_41, l3_42, l3_43, l3_44, l3_46, l3_50, l3_51, l3_52, l3_53, l3_54, l3_55, l3_56, l3_60, l3_61, l3_62, l3_63, l3_64, l3_66);
+#[cfg(kani)]
 registry!("c07", preconditions_len_4, preconditions_len_5, preconditions_len_6, preconditions_len_7, preconditions_len_9, preconditions_len_10,
     paren_walk_9, paren_walk_10, paren_walk_11, paren_walk_12, paren_walk_13, paren_walk_14, paren_walk_15, paren_walk_16, preconditions_len_8, preconditions_len_3, preconditions_len_0, preconditions_len_1, preconditions_len_2,
     l3_00, l3_01, l3_02, l3_03, l3_10, l3_11, l3_12, l3_13, l3_20, l3_21, l3_22, l3_23, l3_24, l3_25, l3_26, l3_30, l3_31, l3_32, l3_33, l3_40, l3_41, l3_42, l3_43, l3_44, l3_46, l3_50, l3_51, l3_52, l3_53, l3_54, l3_55, l3_56, l3_60, l3_61, l3_62, l3_63, l3_64, l3_66);
